@@ -113,7 +113,7 @@ def analyse(repo, fi, path_param=None, user_path_self=False):
                     else:
                         cb_base = 'REL'
                     if cb.closure is not None:
-                        t, cps = tracer.trace_closure(cb)
+                        t, cps = tracer.trace_closure(cb, heap=ev.heap)
                         env2 = dict(env)
                         ps = callback_params(t)
                         if ps:
